@@ -122,12 +122,16 @@ pub fn bounded_other(max_medium: usize) -> BoxedStrategy<(usize, usize, &'static
 
 /// Supported (k, r) for the given codec family, from the cheap classes; third item = class label.
 pub fn counts(kind: Kind, max_medium: usize) -> BoxedStrategy<(usize, usize, &'static str)> {
-    (bounded_other(max_medium), any::<bool>())
-        .prop_map(move |((bounded, other, class), flip)| match kind {
+    (bounded_other(max_medium), 0u8..10)
+        .prop_map(move |((bounded, other, class), v)| match kind {
+            // one case in five uses the fixed-rate family "the other way round" (high rate with few originals and
+            // many recovery shards, low rate with many originals): legal wherever the envelope allows it
+            Kind::High if v < 2 && kind.env(bounded, other) => (bounded, other, class),
+            Kind::Low if v < 2 && kind.env(other, bounded) => (other, bounded, class),
             Kind::High => (other, bounded, class),
             Kind::Low => (bounded, other, class),
             Kind::Rs | Kind::Default => {
-                if flip {
+                if v < 5 {
                     (other, bounded, class)
                 } else {
                     (bounded, other, class)
@@ -210,11 +214,29 @@ pub fn size_class(b: usize) -> &'static str {
 
 pub fn cfg(kind: Kind, max_medium: usize) -> BoxedStrategy<(Cfg, &'static str)> {
     counts(kind, max_medium)
-        .prop_flat_map(|(k, r, class)| {
+        .prop_flat_map(move |(k, r, class)| {
             let big = k + r > 700;
-            let s = if big { shard_size_small() } else { shard_size() };
-            // keep one case below ~2 MiB of shard data
-            s.prop_map(move |b| (Cfg { k, r, b: if (k + r) * b > (2 << 20) { 2 + b % 256 / 2 * 2 } else { b } }, class))
+            // many shards AND shards of several blocks at once (only for callers that accept the large class):
+            // 130 B .. 2.2 KiB, any residue mod 64, total shard data capped at 8 MiB (24 MiB when max_medium >= 2000)
+            let s = if !big {
+                shard_size()
+            } else if max_medium >= 1000 {
+                prop_oneof![6 => shard_size_small(), 1 => (65usize..=1100).prop_map(|h| h * 2)].boxed()
+            } else {
+                shard_size_small()
+            };
+            s.prop_map(move |b| {
+                let n = k + r;
+                let b = if big && b > 128 {
+                    b.min(((if max_medium >= 2000 { 24usize } else { 8 }) << 20) / n / 2 * 2).max(2)
+                } else if n * b > (2 << 20) {
+                    // keep an ordinary case below ~2 MiB of shard data
+                    2 + b % 256 / 2 * 2
+                } else {
+                    b
+                };
+                (Cfg { k, r, b }, class)
+            })
         })
         .boxed()
 }
